@@ -188,7 +188,13 @@ func (b *bastionSession) oneRequest(w *world, ls *logState) {
 		if stored > 0 && stored < size {
 			proof = cur.consistency(stored, size)
 		}
-		return size, proof, signNote(cpText(l.origin, size, cur.root(size)), l.key.signer)
+		// one request in three carries an extension line of its own, so that a same-size resubmission has the
+		// same tree head but a different text: the answer must cosign the text submitted now
+		var ext []string
+		if rng.Intn(3) == 0 {
+			ext = []string{fmt.Sprintf("ext-%d", rng.Intn(1000000))}
+		}
+		return size, proof, signNote(cpText(l.origin, size, cur.root(size), ext...), l.key.signer)
 	}
 	observe := func(status int, size uint64) {
 		if status == 200 {
